@@ -115,6 +115,7 @@ def run_case(case: Case):
     try:
         args, kwargs, pre = case.make()
         it = I.Interp(modular=case.modular, loop_bound=case.loop_bound)
+        it.name_overrides = dict(getattr(case, "name_overrides", {}) or {})
         pre_e = S.bexpr(pre)
         if pre_e is not True:
             it.hyps.append(pre_e)
